@@ -68,6 +68,7 @@ class Borrowed:
         self.pid = rep.pid
         self.tier = rep.tier
         self.extra = {}     # notes of the borrowed module are not copied into this report
+        self.nested = True  # a module that runs borrowed does not borrow in turn
 
     def _r(self, rule):
         return '%s.%s' % (self.rep.pid, rule)
